@@ -7,6 +7,9 @@
    ACTION ::= (send RID TAG (req #BYTES)) | (send RID TAG (flush OLD)) | (connerr)
             | (fin RID (msg #B)) | (fin RID (emsg #E)) | (fin RID (err #E))
             | (wok) | (wfail) | (cancel) | (nop) | (multi ACTION...)
+            | (rerr NET TIMEOUT TEMPORARY)   conn.Read returns an error (NET: it is a net.Error, with those
+                                          Timeout()/Temporary() answers): retried by conn.read - no event - or
+                                          fatal - EConnErr - as [read_error_retried] says
             | (bulk N RID0 TAG0 NTAGS)   N filler requests RID0.. on tags TAG0 + (i mod NTAGS), sent in one
                                           batch to an idle server in AUTO mode, each answered at once by an
                                           auto-completing handler; the harness checks every filler's dispatch
@@ -159,6 +162,8 @@ Definition parse_res (s : sexp) : hres :=
 Definition parse_action1 (a : sexp) : list event :=
   if head_is a "send" then [ESend (get_N (arg a 0)) (get_N (arg a 1)) (parse_kind (arg a 2))]
   else if head_is a "connerr" then [EConnErr]
+  else if head_is a "rerr" then
+    (if read_error_retried (get_bool (arg a 0)) (get_bool (arg a 1)) (get_bool (arg a 2)) then [] else [EConnErr])
   else if head_is a "fin" then [EFinish (get_N (arg a 0)) (parse_res (arg a 1))]
   else if head_is a "wok" then [EWriteOk]
   else if head_is a "wfail" then [EWriteFail]
